@@ -17,7 +17,9 @@ import sys
 import time
 
 VERIF = os.path.dirname(os.path.dirname(os.path.dirname(os.path.abspath(__file__))))
-REPO_PKG = "/repo/perception_eval"
+# development only: VERIF_DEV_REPO=<scratch worktree> runs a check against a scratch copy of the repository (seeded changes tried in
+# parallel); such a run never writes evidence (the `check` script forces VERIF_KEEP_EVIDENCE=1) - registered commands always use /repo
+REPO_PKG = os.path.join(os.environ.get("VERIF_DEV_REPO") or "/repo", "perception_eval")
 FINDINGS_FILE = os.path.join(VERIF, "known_findings.txt")
 
 
